@@ -116,6 +116,12 @@ def stream_init(tier, keepalive_oracle=False):
                     srv._request_manager = rm
                     try:
                         reply = srv._on_dpi(list(toks)) if kind == "data" else srv._on_mpi(list(toks))
+                        if reply is not None and not isinstance(reply, str):
+                            # the init handler no longer produces the reply itself (e.g. it hands back a task for the pool): not
+                            # this stream's to judge — the tie to Init.lean is broken, the server-level streams (dispatch
+                            # differential, co-simulations) decide whether the property still holds
+                            ans = "ok init-handled-elsewhere:" + type(reply).__name__
+                            reply = None
                     except p.RemotingException as e:
                         reply = None
                         ans = "err " + (M if ("parsing %s request" % M) in str(e) else "UNNAMED")
